@@ -30,6 +30,8 @@ def main():
     checks = [pid]
     tier = "quick"
     skip_confirm = False
+    out_override = None
+    store_as = None
     a = sys.argv[3:]
     i = 0
     while i < len(a):
@@ -41,8 +43,14 @@ def main():
             tier = a[i]
         elif a[i] == "--skip-confirm":
             skip_confirm = True
+        elif a[i] == "--out":
+            i += 1
+            out_override = a[i]
+        elif a[i] == "--as":
+            i += 1
+            store_as = a[i]
         i += 1
-    out = "/tmp/seed/%s-out" % pid
+    out = out_override or "/tmp/seed/%s-out" % pid
     wt = "/tmp/seed/%s" % pid
     patch = os.path.join(out, "patch%s.diff" % n)
     meta = json.load(open(os.path.join(out, "meta%s.json" % n)))
@@ -65,7 +73,7 @@ def main():
         tests_pass = "FAILED" not in o and "error" not in o and "test result: ok" in o
         ran.append("with patch: cargo test --workspace --offline -> %s" % ("pass" if tests_pass else "FAIL: " + o[-300:]))
         os.makedirs(os.path.join(wt, "tests"), exist_ok=True)
-        demo_name = "seeddemo_%s_%s" % (pid.lower(), n)
+        demo_name = "seeddemo_%s_%s" % (pid.lower(), store_as or n)
         if os.path.isfile(demo_src):
             shutil.copy(demo_src, os.path.join(wt, "tests", demo_name + ".rs"))
             demo_cmd = "cargo test --offline --test %s 2>&1 | tail -30" % demo_name
@@ -121,7 +129,7 @@ def main():
     result["detected"] = any(d["exit"] == 1 for d in det.values())
     # restore evidence of the unchanged tree is the caller's job (re-run ./check)
     if result.get("confirmed", True):
-        dst = "/verif/seeded/%s-%s" % (pid, n)
+        dst = "/verif/seeded/%s-%s" % (pid, store_as or n)
         os.makedirs(dst, exist_ok=True)
         shutil.copy(patch, os.path.join(dst, "patch.diff"))
         if os.path.isfile(demo_src):
